@@ -116,6 +116,11 @@ Theorem C01_leaf_parsers_from_source :
   /\ ((30 <=? length src_leaf_null)%nat = true /\ (60 <=? length src_leaf_bool)%nat = true /\ (100 <=? length src_leaf_hex4)%nat = true
       /\ (300 <=? length src_leaf_array_start)%nat = true /\ (200 <=? length src_leaf_array_continue)%nat = true).
 Proof. exact ConstsTie.leaf_parsers_from_source. Qed.
+(* ... and so does the whole number parser NumberBuf::parse_in (the loop around the automaton, the buffer, the final
+   check), executed in each of the four contexts *)
+Theorem C01_number_parser_from_source :
+  src_leaf_number = ct_number_on src_leaf_number /\ (5000 <=? length src_leaf_number)%nat = true.
+Proof. exact ConstsTie.number_parser_from_source. Qed.
 
 Print Assumptions C01_str.
 Print Assumptions C01_slice.
@@ -136,3 +141,4 @@ Print Assumptions C01_surrogates_from_source.
 Print Assumptions C01_surrogate_pair_from_source.
 Print Assumptions C01_number_automaton_from_source.
 Print Assumptions C01_leaf_parsers_from_source.
+Print Assumptions C01_number_parser_from_source.
